@@ -235,6 +235,10 @@ def write_replay(pid, rec):
 
 def main():
     t0 = time.time()
+    # process environment is an input too: the checks run under a local zone with daylight saving; nothing the library
+    # computes may depend on it (the C03 sweep additionally brackets the real clock under other zones in child processes)
+    os.environ["TZ"] = os.environ.get("QA_TZ", "Europe/Berlin")
+    time.tzset()
     args = sys.argv[1:]
     pid = args[0]
     tier = qa.tier()
@@ -297,12 +301,20 @@ def main():
             else:
                 stale.append(f["what"])
 
+        def _normalised(t):
+            try:
+                return sys.modules["ctparse.ctparse"]._preprocess_string(t)
+            except Exception:
+                return t
+
         def unlisted(fs):
             rest = []
             for x in fs:
                 hit = None
                 for f in findings:
-                    if x.get("text") is not None and re.search(f["regex"], x["text"]):
+                    # the key is matched against the input as given and against its normalised form (separator variants
+                    # of a listed input are the same finding)
+                    if x.get("text") is not None and (re.search(f["regex"], x["text"]) or re.search(f["regex"], _normalised(x["text"]))):
                         if f.get("depth0"):
                             o2 = dict(x.get("opts") or {}); o2["max_stack_depth"] = 0
                             r2 = eval_case((x["text"], tuple(x["ts"]) if x.get("ts") else None, {k: v for k, v in o2.items() if k in ("latent_time", "max_stack_depth", "relative_match_len")}))
